@@ -12,6 +12,7 @@ import (
 	"os"
 	"path/filepath"
 	"regexp"
+	"runtime/pprof"
 	"sort"
 	"strconv"
 	"strings"
@@ -38,6 +39,7 @@ type Run struct {
 	timedOut   bool
 	notes      []string
 	maxReports int
+	prof       bool
 }
 
 type violation struct {
@@ -119,6 +121,12 @@ func Start(prop string) *Run {
 	}
 	r.deadline = r.start.Add(time.Duration(b) * time.Second)
 	r.loadFindings()
+	if pf := os.Getenv("VERIF_CPUPROFILE"); pf != "" && os.Getenv("VERIF_SHARD") == "" {
+		if f, err := os.Create(pf); err == nil {
+			_ = pprof.StartCPUProfile(f)
+			r.prof = true
+		}
+	}
 	return r
 }
 
@@ -263,6 +271,9 @@ func (r *Run) LoadReplay(out any) {
 
 // Finish writes evidence/<prop>.json, prints KNOWN-FINDING / VIOLATION lines and exits.
 func (r *Run) Finish(c Coverage) {
+	if r.prof {
+		pprof.StopCPUProfile()
+	}
 	if r.scratch != "" {
 		_ = os.RemoveAll(r.scratch)
 	}
@@ -363,7 +374,7 @@ func (r *Run) Finish(c Coverage) {
 // Vacuity guard: a check whose executions all produced the same single outcome
 // explored nothing that collided. Reported as a harness error, never a violation.
 func (r *Run) RequireOutcomes(n int64, min int64) {
-	if r.ReplayPath != "" {
+	if r.ReplayPath != "" || r.TimedOut() {
 		return
 	}
 	if n < min {
